@@ -114,6 +114,7 @@ class Machine:
         self.layout = layout            # {'EntryBound': (size, align)}
         self.hooks = hooks or {}        # callee regex -> handler(machine, st, args, callee)
         self.z3_ms = 300
+        self.local_types = None
         self.cache = {}
         self.varmemo = {}
         self.abstract = False       # counter-abstraction mode: unknown values are nondeterministic, loops closed by fixpoint
@@ -264,6 +265,10 @@ class Machine:
             ty, meth = parts
             ty = re.sub(r"<.*$", "", ty).rsplit("::", 1)[-1]
         ty = re.sub(r"<.*$", "", ty)
+        if not re.fullmatch(r"\w+", ty):
+            return None
+        if self.local_types is not None and ty not in self.local_types:
+            return None         # not a type of the module under analysis (std / other modules are contracts or nondeterministic)
         cands = [f for f in self.fns if f.name.startswith("sorter::") and f.short == meth and "{closure" not in f.name]
         pat = re.compile(r"(?<![\w])%s(?![\w])" % re.escape(ty))
         recv = [f for f in cands if f.args and pat.search(f.args[0][1])]
@@ -371,11 +376,15 @@ class Machine:
             return
         v = st.heap[key]
         for p in path[:-1]:
+            if isinstance(v, Opaque) and self.abstract:
+                return
             if p[0] == "f":
                 v = v.fields[p[1]] if isinstance(v, Struct) else v[p[1]]
             else:
                 raise Unsupported("write through variant")
         p = path[-1]
+        if isinstance(v, Opaque) and self.abstract:
+            return          # a field of an untracked object
         if isinstance(v, Struct):
             v.fields[p[1]] = val
         elif isinstance(v, list):
@@ -544,6 +553,8 @@ class Machine:
             if isinstance(v, Enum):
                 return v.discr
             if self.abstract and isinstance(v, Opaque):
+                if hasattr(v, "fid"):       # a fallible result inspected by `match` counts as examined (fault-propagation harness)
+                    st.ghost["examined"] = st.ghost.get("examined", ()) + (v.fid,)
                 return self.fresh("discr")
             raise Unsupported("discriminant of %r" % (v,))
         # aggregates
